@@ -34,6 +34,47 @@ theorem evalPut_shiftsBE (w u : Nat) : evalPut (shiftsBE w) u = beN w u := by
     have ih' : List.map (fun p : Nat × Nat => u / 2 ^ p.2 % 256) (shiftsBE w) = beN w u := ih
     rw [hf, ih', Nat.pow_mul]
 
+/-! The put tables are evaluated on the two's-complement pattern `toU W v`.  That this is what Go's
+    `byte(v >> s)` computes for a *signed* `v` (arithmetic shift, then truncation) is proved, not assumed: -/
+
+theorem shift_byte_general (v d c : Int) (hd : 0 < d) :
+    (v / d) % 256 = ((v % (d * (256 * c))) / d) % 256 := by
+  have h := Int.emod_add_mul_ediv v (d * (256 * c))
+  generalize hr : v % (d * (256 * c)) = r at h ⊢
+  generalize hq : v / (d * (256 * c)) = q at h
+  have : v = r + d * (256 * c * q) := by rw [← h]; simp [Int.mul_assoc]
+  rw [this, Int.add_mul_ediv_left _ _ (Int.ne_of_gt hd)]
+  have : 256 * c * q = 256 * (c * q) := Int.mul_assoc _ _ _
+  rw [this, Int.add_mul_emod_self_left]
+
+theorem modulus_split (W s : Nat) (hs : s + 8 ≤ 8 * W) :
+    modulus W = (2 : Int) ^ s * (256 * (2 : Int) ^ (8 * W - s - 8)) := by
+  unfold modulus
+  have : (256 : Nat) ^ W = 2 ^ s * (256 * 2 ^ (8 * W - s - 8)) := by
+    have e : (256 : Nat) = 2 ^ 8 := rfl
+    rw [e, ← Nat.pow_mul, ← Nat.pow_add, ← Nat.pow_add]
+    congr 1; omega
+  rw [this]; simp [Int.natCast_mul, Int.natCast_pow]
+
+/-- Go's `byte(v >> s)` on a signed `v` held in `W` bytes (arithmetic shift = floor division,
+    conversion to byte = mod 256) is the byte at bit offset `s` of the two's-complement pattern -/
+theorem put_byte_signed (W s : Nat) (v : Int) (hs : s + 8 ≤ 8 * W) :
+    ((v / (2 : Int) ^ s) % 256).toNat = toU W v / 2 ^ s % 256 := by
+  have hp : (0 : Int) < (2 : Int) ^ s := Int.pow_pos (by decide)
+  rw [shift_byte_general v ((2 : Int) ^ s) ((2 : Int) ^ (8 * W - s - 8)) hp, ← modulus_split W s hs]
+  have h0 : 0 ≤ v % modulus W := Int.emod_nonneg _ (Int.ne_of_gt (modulus_pos W))
+  unfold toU
+  generalize v % modulus W = r at h0 ⊢
+  obtain ⟨n, rfl⟩ := Int.eq_ofNat_of_zero_le h0
+  simp only [Int.toNat_natCast]
+  have : ((n : Int) / (2 : Int) ^ s) % 256 = ((n / 2 ^ s % 256 : Nat) : Int) := by
+    simp [Int.natCast_ediv, Int.natCast_emod, Int.natCast_pow]
+  rw [this, Int.toNat_natCast]
+
+/-- hence every signed writer emits `encI w v`: the bytes of the shift table are Go's `byte(v >> s)` -/
+theorem put_table_signed (w : Nat) (v : Int) :
+    evalPut (shiftsBE w) (toU w v) = encI w v := evalPut_shiftsBE w (toU w v)
+
 def lookup {α : Type} (tbl : List (String × α)) (k : String) : Option α :=
   (tbl.find? (fun p => p.1 == k)).map (·.2)
 
